@@ -2,21 +2,178 @@
 From Coq Require Import Ascii String List Bool Arith ZArith NArith.
 From PTBase Require Import Exn PyStr PyNum PyVal Fmt FixedFormat.
 From Gen Require Import GenTables GenSections.
-From P Require Import Comb Obj Sections SectionsB T2DataIO.
+From P Require Import Comb Obj Fields Idem Sections SectionsB Rec SecRocks SecMesh SecGener SecMisc SecParam SecHist SecSel T2DataIO Whole Example.
 Import ListNotations.
+Open Scope string_scope.
 
-(** COMBINATOR 1: a record the writer returns reads back field by field as the read-back of
-    each field's own text, whatever the other values are *)
+(** ** the regenerated tables, dispatch dictionaries and per-line constants have the shape the
+    theorems below are stated for (finite, by computation) *)
+Theorem format_tables_shape : tables_ok = true /\ xp_tables_ok = true.
+Proof. exact (conj tables_ok_true xp_tables_ok_true). Qed.
+Print Assumptions format_tables_shape.
+
+(** ** fields *)
+Theorem integer_field_reads_back : forall f z, ft f = Td -> (0 <= fw f)%Z -> fits_int f z = true -> cf f (XInt z) = XInt z.
+Proof. exact cf_int. Qed.
+Print Assumptions integer_field_reads_back.
+Theorem name_field_reads_back : forall f s, ft f = Ts -> fits_str f s = true -> cf f (XStr s) = XStr s.
+Proof. exact cf_str. Qed.
+Print Assumptions name_field_reads_back.
+Theorem blank_field_reads_none : forall f, numeric f = true -> cf f XNone = XNone.
+Proof. exact cf_none. Qed.
+Print Assumptions blank_field_reads_none.
+
+(** ** combinators *)
 Theorem record_roundtrip : forall specs vals s,
   write_values specs vals = Ok s -> parse specs (s ++ [nl])%list = cvals specs vals.
 Proof. exact Comb.record_roundtrip. Qed.
 Print Assumptions record_roundtrip.
-
-(** COMBINATOR 2: a list written k per line and read back as n lines: every k > 0, every
-    length, every n (both sides of every 4- and 8-per-line boundary) *)
 Theorem chunks_roundtrip : forall f k n l ls rest,
   (0 < k)%nat -> numeric f = true ->
   write_chunks (repeat f k) k n l = Ok ls ->
   read_chunks (repeat f k) n (ls ++ rest)%list = (somes (map (cf f) (firstn (n * k) l)), rest).
 Proof. exact Comb.chunks_roundtrip. Qed.
 Print Assumptions chunks_roundtrip.
+Theorem chunked_table_roundtrip : forall T k c n l ls rest,
+  uniform T k c = true -> (0 < c)%nat -> (length l <= n * c)%nat ->
+  write_chunks (Sections.sp T k) c n l = Ok ls -> read_chunks (Sections.sp T k) n (ls ++ rest)%list = (ctab T k l, rest).
+Proof. exact tab_roundtrip. Qed.
+Print Assumptions chunked_table_roundtrip.
+
+(** ** sections (T: the main table or the extra-precision table) *)
+Theorem rocks_read_write : forall T d body, rocks_table_ok T = true -> write_rocks T d = Ok (kw "ROCKS" :: body) ->
+  forallb (wf_rock T) (rocks d) = true ->
+  forall d0 rest, read_rocks T d0 (body ++ rest)%list = Ok (set_rocks d0 (canon_rocks T (rocks d)), rest).
+Proof. exact rocks_roundtrip. Qed.
+Print Assumptions rocks_read_write.
+Theorem eleme_read_write : forall T d body, blocks_table_ok T = true -> write_blocks T d = Ok (kw "ELEME" :: body) ->
+  forall d0 rest, forallb (wf_block T (rocks d0)) (blocks d) = true ->
+  read_blocks T d0 (body ++ rest)%list = Ok (set_blocks d0 (canon_blocks T (blocks d)), rest).
+Proof. exact blocks_roundtrip. Qed.
+Print Assumptions eleme_read_write.
+Theorem conne_read_write : forall T d body, conns_table_ok T = true -> write_conns T d = Ok (kw "CONNE" :: body) ->
+  forall d0 rest, forallb (wf_conn T (blocks d0)) (conns d) = true ->
+  read_conns T d0 (body ++ rest)%list = Ok (set_conns d0 (canon_conns T (conns d)), rest).
+Proof. exact conns_roundtrip. Qed.
+Print Assumptions conne_read_write.
+Theorem gener_read_write : forall T d body, gener_table_ok T = true -> write_gens T d = Ok (kw "GENER" :: body) ->
+  forallb (wf_gen T) (gens d) = true ->
+  forall d0 rest, read_gens T d0 (body ++ rest)%list = Ok (set_gens d0 (canon_gens T (gens d)), rest).
+Proof. exact gens_roundtrip. Qed.
+Print Assumptions gener_read_write.
+Theorem incon_read_write : forall T d body, incon_table_ok T = true -> write_incons T d = Ok (kw "INCON" :: body) ->
+  forallb (wf_inc T) (incon_items d) = true ->
+  forall d0 rest, incon d0 = [] -> read_incons T d0 (body ++ rest)%list = Ok (set_incon d0 (canon_incons T d), rest).
+Proof. exact incons_roundtrip. Qed.
+Print Assumptions incon_read_write.
+Theorem param_read_write : forall T keywords d body d0, param_table_ok T = true -> write_param T d = Ok (kw "PARAM" :: body) ->
+  wf_param T keywords d0 d = true ->
+  forall nextl rest, next_ok keywords nextl = true ->
+  read_param T keywords d0 (body ++ nextl :: rest)%list = Ok (set_param d0 (canon_param T d0 d), Some (padstring nextl), rest).
+Proof. exact param_roundtrip. Qed.
+Print Assumptions param_read_write.
+Theorem times_read_write : forall T d dt tl body, times_table_ok T = true -> otimes d = Some (dt, tl) ->
+  write_times T d = Ok (kw "TIMES" :: body) ->
+  forall z, dget dt "num_times_specified" = Some (XInt z) ->
+  (match nth_error (Sections.sp T "output_times1") 0 with Some f => fits_int f z | None => false end) = true ->
+  Z.of_nat (length tl) = z ->
+  forall d0 rest, read_times T d0 (body ++ rest)%list =
+    Ok (set_otimes d0 (Some (canon_times T (match otimes d0 with Some (x, _) => x | None => [] end) (dt, tl))), rest).
+Proof. exact times_roundtrip. Qed.
+Print Assumptions times_read_write.
+Theorem momop_read_write : forall T d body, momop_table_ok T = true -> write_momop T d = Ok (kw "MOMOP" :: body) ->
+  forallb digit_z (momop d) = true -> length (momop d) = 21%nat ->
+  forall d0 rest, read_momop T d0 (body ++ rest)%list = Ok (set_momop d0 (momop d), rest).
+Proof. exact momop_roundtrip. Qed.
+Print Assumptions momop_read_write.
+Theorem rpcap_read_write : forall T d body, write_rpcap T d = Ok (kw "RPCAP" :: body) ->
+  forall d0 rest, read_rpcap T d0 (body ++ rest)%list =
+    Ok (set_capil (set_relperm d0 (canon_tp T "relative_permeability" (relperm d))) (canon_tp T "capillarity" (capil d)), rest).
+Proof. exact rpcap_roundtrip. Qed.
+Print Assumptions rpcap_read_write.
+Theorem lineq_read_write : forall T d body, write_lineq T d = Ok (kw "LINEQ" :: body) ->
+  forall d0 rest, read_lineq T d0 (body ++ rest)%list = Ok (set_lineq d0 (canon_dict T "lineq" (lineq d0) (lineq d)), rest).
+Proof. exact lineq_roundtrip. Qed.
+Print Assumptions lineq_read_write.
+Theorem solvr_read_write : forall T d body, write_solver T d = Ok (kw "SOLVR" :: body) ->
+  forall d0 rest, read_solver T d0 (body ++ rest)%list = Ok (set_solver d0 (canon_dict T "solver" (solver d0) (solver d)), rest).
+Proof. exact solver_roundtrip. Qed.
+Print Assumptions solvr_read_write.
+Theorem multi_read_write : forall T d body, write_multi T d = Ok (kw "MULTI" :: body) ->
+  forall d0 rest, autough2 d0 = autough2 d ->
+  read_multi T d0 (body ++ rest)%list =
+    (do m <- strip_eos (canon_dict T (multi_spec d) (multi d0) (multi d)); Ok (set_multi d0 m, rest)).
+Proof. exact multi_roundtrip. Qed.
+Print Assumptions multi_read_write.
+
+Theorem selec_read_write : forall T d x body, selec_table_ok T = true -> selection d = Some x ->
+  write_selection T d = Ok (kw "SELEC" :: body) -> wf_selection T x = true ->
+  forall d0 rest, read_selection T d0 (body ++ rest)%list = Ok (set_selection d0 (Some (canon_selection T x)), rest).
+Proof. exact selection_roundtrip. Qed.
+Print Assumptions selec_read_write.
+Theorem diffu_read_write : forall T d body, write_diffusion T d = Ok (kw "DIFFU" :: body) ->
+  forall d0 rest np, dget (multi d0) "num_components" = Some (XInt (Z.of_nat (length (diffusion d)))) ->
+  dget (multi d0) "num_phases" = Some (XInt np) -> diffusion d0 = [] ->
+  read_diffusion T d0 (body ++ rest)%list = Ok (set_diffusion d0 (canon_diffusion T np (diffusion d)), rest).
+Proof. exact diffusion_roundtrip. Qed.
+Print Assumptions diffu_read_write.
+Theorem foft_read_write : forall d body, write_hist_block d = Ok (kw "FOFT" :: body) ->
+  forall d0 rest, forallb hname_ok (hist_block d) = true -> forallb (keep_block d0) (hist_block d) = true ->
+  read_hist_block d0 (body ++ rest)%list = Ok (set_hist_block d0 (hist_block d), rest).
+Proof. exact foft_roundtrip. Qed.
+Print Assumptions foft_read_write.
+Theorem coft_read_write : forall d body, write_hist_conn d = Ok (kw "COFT" :: body) ->
+  forall d0 rest, forallb hpair_ok (hist_conn d) = true -> forallb (keep_conn d0) (hist_conn d) = true ->
+  read_hist_conn d0 (body ++ rest)%list = Ok (set_hist_conn d0 (hist_conn d), rest).
+Proof. exact coft_roundtrip. Qed.
+Print Assumptions coft_read_write.
+Theorem goft_read_write : forall d body, write_hist_gen d = Ok (kw "GOFT" :: body) ->
+  forall d0 rest, forallb hname_ok (hist_gen d) = true -> forallb (keep_block d0) (hist_gen d) = true ->
+  read_hist_gen d0 (body ++ rest)%list = Ok (set_hist_gen d0 (hist_gen d), rest).
+Proof. exact goft_roundtrip. Qed.
+Print Assumptions goft_read_write.
+Theorem indom_read_write : forall T d body, write_indom T d = Ok (kw "INDOM" :: body) -> forallb wf_indom1 (indom d) = true ->
+  forall d0 rest, indom d0 = [] -> read_indom T d0 (body ++ rest)%list = Ok (set_indom d0 (canon_indom T (indom d)), rest).
+Proof. exact indom_roundtrip. Qed.
+Print Assumptions indom_read_write.
+
+(** ** every covered section through the keyword dispatch: the reader consumes exactly the
+    writer's lines (PARAM: plus the next keyword line, handed back as look-ahead) *)
+Theorem section_read_write : forall k d d0 lines, In k covered -> wsec d k = Ok lines -> secwf k d d0 = true ->
+  exists body, lines = kw k :: body /\
+    if plain k then forall line rest, dispatch d0 k line (body ++ rest)%list = Ok (supd k d d0, None, rest)
+    else forall line nextl rest, next_ok0 nextl = true ->
+         dispatch d0 k line (body ++ nextl :: rest)%list = Ok (supd k d d0, Some (padstring nextl), rest).
+Proof. exact section_step. Qed.
+Print Assumptions section_read_write.
+
+(** ** THE round trip of the main file: any subset and order [ks] of the 21 covered section kinds
+    (all but SHORT and MESHMAKER) *)
+Theorem t2data_read_write_partial : forall d ks ls,
+  write_lines d = Ok ls ->
+  update_sections d = sections d -> sections d = map s2l ks -> xprec d = [] -> is_end (end_keyword d) = true ->
+  title_ok d = true -> chain_ok d ks (start_state d) = true ->
+  read_lines ls = Ok (set_end_keyword (final d ks (start_state d)) (end_keyword d)).
+Proof. exact read_write_main. Qed.
+Print Assumptions t2data_read_write_partial.
+(** the hypotheses are met by two concrete objects, one per flavour, in a non-standard order *)
+Theorem t2data_read_write_hypotheses_met :
+  hyps_ok example_autough2 example_autough2_order = true /\ hyps_ok example_tough2 example_tough2_order = true.
+Proof. exact (conj example_autough2_ok example_tough2_ok). Qed.
+Print Assumptions t2data_read_write_hypotheses_met.
+
+(** ** writing again what was read (record level; the whole-file statement is tested, not proved) *)
+Theorem exact_fields_are_stable :
+  (forall f z, ft f = Td -> (0 <= fw f)%Z -> fits_int f z = true -> stable f (XInt z)) /\
+  (forall f s, ft f = Ts -> fits_str f s = true -> stable f (XStr s)) /\
+  (forall f, stable f XNone) /\ (forall f, stable f (rd_field f [])).
+Proof. exact (conj stable_int (conj stable_str (conj stable_none stable_missing))). Qed.
+Print Assumptions exact_fields_are_stable.
+Theorem record_write_idem_partial : forall specs vals s, write_values specs vals = Ok s -> all_stable specs vals ->
+  exists t, write_values specs (cvals specs vals) = Ok (s ++ t)%list /\ forallb (fun c => ceqb c " "%char) t = true.
+Proof. exact line_rewrite. Qed.
+Print Assumptions record_write_idem_partial.
+Theorem record_write_fixpoint_partial : forall specs vals l, write_fields specs vals = Ok l -> all_stable specs vals ->
+  write_fields specs (cvals specs (cvals specs vals)) = write_fields specs (cvals specs vals).
+Proof. exact record_rewrite_fixpoint. Qed.
+Print Assumptions record_write_fixpoint_partial.
